@@ -325,3 +325,39 @@ def fold2(prog, rr):
                     rr.finding(f, a, _q(f), "FOLD2: '%s' is filled over the iterations of a loop but '%s = %s' replaces it inside that loop: only the last iteration's "
                                "elements survive (with several fields in an ordering group only the last one picked gets its random target)" % (name, name, norm(a.value)[:60]))
     rr.note("list accumulators examined: %d" % n)
+
+
+# --------------------------------------------------------------------------------------- BD5
+@rule("BD5", ["C14", "C10", "C19"], "interval coalescing keeps the larger upper bound when it merges a range into its predecessor", engine="DF", floor=3)
+def bd5(prog, rr):
+    cov = prog.module("vsc.coverage")
+    wba = cov.classes.get("wildcard_bin_array")
+    sites = [
+        (prog.method("RangelistModel", "compact"), "C10"),
+        (prog.method("VariableBoundInPropagator", "propagate"), "C14"),
+    ]
+    if wba is not None and "__init__" in wba.methods:
+        sites.append((wba.methods["__init__"], "C19"))
+    for f, _ in sites:
+        merges = []
+        for n in walk_local(f.node):
+            if not isinstance(n, ast.Assign) or not _loops(f.node, n):
+                continue
+            t = n.targets[0]
+            # X[..][1] = V     or     X[i] = (X[i][0], V)
+            if isinstance(t, ast.Subscript) and norm(t.slice) == "1" and isinstance(t.value, ast.Subscript):
+                merges.append((n, n.value, norm(t)))
+            elif isinstance(t, ast.Subscript) and isinstance(n.value, ast.Tuple) and len(n.value.elts) == 2 and norm(n.value.elts[0]) == norm(t) + "[0]":
+                merges.append((n, n.value.elts[1], norm(t) + "[1]"))
+        # only merges that sit under an overlap test (a comparison mentioning an upper bound [1] and a lower bound [0])
+        merges = [(n, v, cur) for n, v, cur in merges
+                  if any("[1]" in g and "[0]" in g for g, pos in _guards(f.node, n)) or f.name == "compact"]
+        rr.inst("%s: %d merge assignments" % (_q(f), len(merges)))
+        if not merges:
+            rr.finding(f, f.node, _q(f), "BD5: no interval-merge step recognised in %s" % _q(f), text="no merge")
+        for n, v, cur in merges:
+            ok = isinstance(v, ast.Call) and isinstance(v.func, ast.Name) and v.func.id == "max" and any(norm(a) == cur for a in v.args) and len(v.args) == 2 \
+                and all(norm(a).endswith("[1]") for a in v.args)
+            if not ok:
+                rr.finding(f, n, _q(f), "BD5: merging a range into its predecessor sets the upper bound to '%s' instead of max(%s, <merged range's upper>): when the later "
+                           "range lies inside the earlier one (or the ranges are not ordered by upper bound) values above it are cut off" % (norm(v), cur))
